@@ -77,6 +77,10 @@ func c15Enum() []c15Case {
 			// the node closes every new connection: the first request needs a fresh dial
 			cs2, _ := c15Build(0, n, -1, "", pos%2 == 1, 100)
 			out = append(out, c15Case{Cfg: sut.Config{ServerConns: 1}, Spec: PipeSpec{Clients: []ClientSpec{cs2}}, Accept: []int{0}, KillConn: []int{0}})
+			if n <= 3 {
+				// the same with a password: the new connection dies before its handshake was acknowledged
+				out = append(out, c15Case{Cfg: sut.Config{ServerConns: 1, Password: "pw"}, Spec: PipeSpec{Clients: []ClientSpec{cs2}}, Accept: []int{0}, KillConn: []int{0}})
+			}
 			// the node is down altogether: dialling fails
 			cs3, _ := c15Build(0, n, -1, "", pos%2 == 0, 100)
 			out = append(out, c15Case{Cfg: sut.Config{ServerConns: 1}, Spec: PipeSpec{Clients: []ClientSpec{cs3}}, Down: []int{0}})
@@ -121,6 +125,10 @@ func c15Gen(t *rapid.T) c15Case {
 	}
 	if rapid.IntRange(0, 7).Draw(t, "nodedown") == 0 {
 		c.Down = []int{rapid.IntRange(0, 2).Draw(t, "downnode")}
+	}
+	if rapid.IntRange(0, 7).Draw(t, "acceptclose") == 0 {
+		n := rapid.IntRange(0, 2).Draw(t, "acnode")
+		c.Accept, c.KillConn = []int{n}, []int{n}
 	}
 	if rapid.IntRange(0, 4).Draw(t, "unknownredirect") == 0 {
 		cs := &c.Spec.Clients[0]
